@@ -1910,6 +1910,14 @@ where
 		keychain_mask: Option<&SecretKey>,
 		frequency: Duration,
 	) -> Result<(), Error> {
+		// The updater works with this token for as long as it runs: refuse one that is not
+		// the open wallet's now, like every other call does, rather than in the spawned thread
+		{
+			let mut w_lock = self.wallet_inst.lock();
+			if let Ok(w) = w_lock.lc_provider()?.wallet_inst() {
+				let _ = w.keychain(keychain_mask)?;
+			}
+		}
 		let updater_inner = self.updater.clone();
 		let tx_inner = {
 			let t = self.status_tx.lock();
